@@ -23,6 +23,7 @@ RULE = (
     "correspond to some dependency between descendants of its endpoints; flattening: to_flat_graph() has exactly the "
     "hierarchical ids of the recursive walk, each once, with the right parent and the inner edges of every instance. "
     "Non-trivial: the graph has >= 1 nested graph or gate; distinct = (program shape); states counted separately."
+    ' Also: Mermaid declarations counted (no node declared twice); directed shapes: a value name private to one container and exposed by a sibling next to an output whose name contains it; names whose glued diagram ids collide.'
 )
 ASSUMPTIONS = [
     "edges whose endpoint is hidden in a state are ignored on the drawn side (inputs owned by a collapsed container are declared but hidden by design)",
